@@ -21,7 +21,7 @@ def S(t):
     return 'path-complete symbolic execution of the macro\'s MIR over a lazily initialised symbolic input AST, obligations discharged by z3; ' + t
 
 CLAIMED = {
- 'C01': ('model_checking', 'For a generated fn/mod corpus Kani/CBMC decides for every argument tuple and application state that the trait call traces exactly one call of the own function with the receiver as dependency, arguments in declared order and the direct-call result (X). For all fn/mod inputs within the AST bounds the delegating body is `f(self, p1..pn)[.await]` with the generated parameter names in order, own function name, receiver shape per dependency kind (S). A corpus program whose expansion rustc rejects with a coded error is a violation (no method to call); the corpus includes parameters spelled like the fn before / after every pattern kind and an entraited fn in a block scope next to a same-named module-level fn.',
+ 'C01': ('model_checking', 'For a generated fn/mod corpus Kani/CBMC decides for every argument tuple and application state that the trait call traces exactly one call of the own function with the receiver as dependency, arguments in declared order and the direct-call result (X). For all fn/mod inputs within the AST bounds the delegating body is `f(self, p1..pn)[.await]` with the generated parameter names in order, own function name, receiver shape per dependency kind (S). A corpus program whose expansion rustc rejects with a coded error is a violation (no method to call); the corpus includes parameters spelled like the fn before / after every pattern kind, raw identifiers (fn name, parameter, only binding of a pattern) and an entraited fn in a block scope next to a same-named module-level fn.',
          X_NOTE + ' ' + S_NOTE, X('call shape per input program decided by symbolic execution of the macro (S)'), 'X+S'),
  'C02': ('other', 'For all fn/mod/impl inputs within the bounds the expansion starts with / contains the input tokens unaltered and in order, generated items only after them (S, back end on AST inputs and front end on symbolic token lists through entrait\'s own item parsers incl. what Input::parse consumes before dispatching). X: reference twins (f == f_ref for all arguments), marker attribute applied exactly once, unsafe fn stays unsafe.',
          S_NOTE + ' ' + X_NOTE, S('item parsers run over symbolic token lists; Kani twins/markers'), 'S+X'),
@@ -29,11 +29,11 @@ CLAIMED = {
          S_NOTE + ' rustc decides the coercion witnesses.', S('signature identity; rustc-decided coercion witnesses'), 'S+X'),
  'C04': ('other', 'For all ways of declaring <=k dependency bounds (inline / where / impl A+B / split / several module fns), by-ref and by-value deps and all mock settings within the bounds: impl where-clause = exactly the declared bounds, `EntraitT: Sync [+ Send] + \'static`, self type T iff no mock derivation else Impl<T> (S, option values symbolic). Bounds of several fns that share a last path segment without being the same trait (`B0`, `ma::B0`, `B0<u8>`) stay distinct (S, lazily shaped bounds). X: availability probes for application types each missing one bound / auto trait (rustc-decided constants asserted under Kani).',
          S_NOTE, S('bound sets and self type; availability probes rustc-decided'), 'S+X'),
- 'C05': ('model_checking', 'Kani/CBMC over expansions of concrete-dependency functions (type shapes ident/path/generic/tuple/array/&\'static): C itself, Impl<C> and a hand-written impl behind Impl<App> - also one written in a sibling module of the library (README Case 1, pub / pub(crate) trait) - traced for all argument values, also with a named lifetime parameter on the dependency reference; every compile failure of the corpus is a violation (X). Classification of dependency type shapes as concrete, concrete shapes accepted, impl target, nested entrait attribute, and the leaf-trait expansion (default selector, method lifetimes, async) forwarding to T (S).',
+ 'C05': ('model_checking', 'Kani/CBMC over expansions of concrete-dependency functions (type shapes ident/path/generic/tuple/array/&\'static): C itself, Impl<C> and a hand-written impl behind Impl<App> - also one written in a sibling module of the library (README Case 1, pub / pub(crate) trait) - traced for all argument values, also with a named lifetime parameter on the dependency reference, as qualified paths next to the fn's own type / const generics, and unsized (`&[u32]`, `&dyn Trait`); every compile failure of the corpus is a violation (X). Classification of dependency type shapes as concrete, concrete shapes accepted, impl target, nested entrait attribute, and the leaf-trait expansion (default selector, method lifetimes, async) forwarding to T (S).',
          X_NOTE + ' ' + S_NOTE, X('concrete-type classification by S'), 'X+S'),
  'C06': ('model_checking', 'Kani/CBMC over entraited traits for default/ref/Borrow selectors with two providers: every call forwarded once to the selected provider, arguments in order, result unchanged, for all argument values (X). Forwarding call shape, where-clause on T per selector, impl header for all trait shapes within the bounds (S).',
          X_NOTE + ' ' + S_NOTE, X('call shapes / provider bounds by S'), 'X+S'),
- 'C07': ('model_checking', 'Kani/CBMC over dependency-inversion programs (static Selector, dynamic ref and Borrow - the application also offers the conversion that was NOT selected, leading to the other target -, two competing targets incl. same-named path targets, implementation fns using further deps incl. two traits with the same last path segment): selected block reached once with the same &Impl<T>, never the other (X). Delegation-target trait, selector trait, impl-block expansion and call shapes for all inputs within the bounds (S).',
+ 'C07': ('model_checking', 'Kani/CBMC over dependency-inversion programs (static Selector, dynamic ref and Borrow - the application also offers the conversion that was NOT selected, leading to the other target -, two competing targets incl. same-named path targets, implementation fns using further deps incl. two traits with the same last path segment, `async_trait` reached through a re-export): selected block reached once with the same &Impl<T>, never the other (X). Delegation-target trait, selector trait, impl-block expansion and call shapes for all inputs within the bounds (S).',
          X_NOTE + ' ' + S_NOTE, X('impl-block / delegation-target shapes by S'), 'X+S'),
  'C08': ('other', 'Module bodies as symbolic token lists run through entrait\'s own ModItem parser: the items that become trait methods are exactly the visible fns with a body, in source order, compared with a reference classification written from the property (S front end); trait visibility inside the module and re-export (S back end). X: module with every qualifier combination and foreign items, each method traced to its own fn.',
          S_NOTE, S('item classification over symbolic token lists; Kani routing'), 'S+X'),
